@@ -115,12 +115,12 @@ type Program struct {
 	InMethod bool    `json:"in_method,omitempty"`
 	// Shadow: user variables named like identifiers of the generated code hold
 	// the Params values (and other argument values) of the directive.
-	Shadow         bool     `json:"shadow,omitempty"`
+	Shadow bool `json:"shadow,omitempty"`
 	// Bare: every argument of the directive is a plain identifier (a local
 	// variable declared just before it), and all those variables are
 	// overwritten with recognisable poison values as soon as the first user
 	// function is entered: an argument that is read after that moment shows.
-	Bare bool `json:"bare,omitempty"`
+	Bare           bool     `json:"bare,omitempty"`
 	Features       []string `json:"features,omitempty"`
 	NumFns         int      `json:"num_fns"`
 	NumSites       int      `json:"num_sites"` // rt.A sites
